@@ -235,6 +235,21 @@ func (v *Value) IsTrue() bool {
 	}
 }
 
+// detached returns a copy of a number, text or flag that is a field of an
+// object which is updated in place (the forloop record): a name bound to it
+// keeps the value it has been given. Everything else is returned as it is.
+func detached(value *Value) *Value {
+	if value != nil && value.val.IsValid() && value.val.CanAddr() && value.val.CanInterface() {
+		switch value.val.Kind() {
+		case reflect.Bool, reflect.String, reflect.Float32, reflect.Float64,
+			reflect.Int, reflect.Int8, reflect.Int16, reflect.Int32, reflect.Int64,
+			reflect.Uint, reflect.Uint8, reflect.Uint16, reflect.Uint32, reflect.Uint64:
+			return &Value{val: reflect.ValueOf(value.val.Interface()), safe: value.safe}
+		}
+	}
+	return value
+}
+
 // Negate tries to negate the underlying value. It's mainly used for
 // the NOT-operator and in conjunction with a call to
 // return_value.IsTrue() afterwards.
